@@ -335,7 +335,7 @@ func workerMain() {
 			rl := w.runHistory(j.History, j.Sched, j.Order)
 			saveGob(j.Out, rl)
 			return Reply{Run: &RunSummary{Ops: len(rl.Ops), FgPoints: rl.FgPoints, ForcedMoves: rl.ForcedMoves, FreeMoves: rl.FreeMoves, Timeouts: rl.Timeouts,
-				LockWaitsBG: rl.LockWaitsBG, LockWaitsFG: rl.LockWaitsFG, Broken: rl.Broken, Digest: logDigest(rl.Ops)}}
+				LockWaitsBG: rl.LockWaitsBG, LockWaitsFG: rl.LockWaitsFG, Broken: rl.Broken, Digest: logDigest(rl.Ops), FailedStep: rl.FailedStep, Failure: rl.Failure}}
 		case "eval":
 			rl := getRun(j.RunFile)
 			img := imageAt(w.setup.Base, rl.Ops, j.Cut, j.Tear)
@@ -522,6 +522,9 @@ func coordinator() {
 	}
 	var devs []*runInfo
 	for _, ri := range s0 {
+		if ri.rl == nil || ri.rl.Failure != "" {
+			continue
+		}
 		for _, s := range cfg.Scheds(ri.hist, ri.rl) {
 			devs = append(devs, mkRun(ri.hist, s))
 		}
@@ -532,6 +535,7 @@ func coordinator() {
 	r.Extra["wall_s_setup_and_runs"] = time.Since(t0).Seconds()
 
 	// ---- phase 2: the plan — every cut and torn variant of every log, identical images once
+	earlyViol := map[string]*candidate{}
 	seen := map[string]bool{}
 	cutDigest := map[[2]int]string{} // (run, cut) -> digest key of the untorn image there
 	var plan []*planned
@@ -554,6 +558,18 @@ func coordinator() {
 		r.Add("gate_idle_by_timeout", int64(ri.sum.Timeouts))
 		r.Add("gate_writer_waited_for_wal_lock", int64(ri.sum.LockWaitsBG))
 		r.Add("gate_foreground_waited_for_wal_lock", int64(ri.sum.LockWaitsFG))
+		if ri.sum.Failure != "" {
+			// nothing crashed, and still a step of the workload failed on a node that was started from a
+			// cleanly closed directory (the continuous node accepted the same blocks)
+			r.Add("evaluations", 1)
+			r.Add("workload_runs_that_fail_without_a_crash", 1)
+			fp := fmt.Sprintf("%s/workload-fails-without-a-crash/%s/%s", prop, stepKind(ri.sum.FailedStep), normMsg(ri.sum.Failure))
+			what := fmt.Sprintf("history %s [%s] schedule %s: step %s fails although nothing crashed: %s", ri.hist.Name, strings.Join(ri.hist.Steps, " "), ri.sched, ri.sum.FailedStep, ri.sum.Failure)
+			if c, ok := earlyViol[fp]; !ok || ri.idx < c.order[0] {
+				earlyViol[fp] = &candidate{fp, what, [4]int{ri.idx, 0, 0, 0}, ReplaySpec{History: ri.hist, Sched: ri.sched, Order: order, Cut: -1, ContTo: cfg.ContTo, LogHash: ri.sum.Digest, Describe: what, Class: "workload-fails-without-a-crash"}}
+			}
+			continue
+		}
 		if ri.sum.Broken != "" {
 			r.NotExhaustive(fmt.Sprintf("run %s/%s: %s", ri.hist.Name, ri.sched, ri.sum.Broken))
 			continue
@@ -875,6 +891,9 @@ func coordinator() {
 	}
 	r.Extra["goroutines_left_in_workers_max"] = maxGor
 
+	for fp, c := range earlyViol {
+		cands[fp] = c
+	}
 	fps := make([]string, 0, len(cands))
 	for fp := range cands {
 		fps = append(fps, fp)
@@ -969,6 +988,14 @@ func replayMain() {
 	setup := buildSetup()
 	w := loadWorld(setup)
 	rl := w.runHistory(rs.History, rs.Sched, rs.Order)
+	if rs.Cut < 0 {
+		if rl.Failure != "" {
+			fmt.Printf("history %s [%s] schedule %s: step %s fails although nothing crashed: %s\nREPLAY: the violation reproduces\n", rs.History.Name, strings.Join(rs.History.Steps, " "), rs.Sched, rl.FailedStep, rl.Failure)
+			os.Exit(1)
+		}
+		fmt.Println("the workload runs to its end\nREPLAY: no violation of the recorded class")
+		os.Exit(0)
+	}
 	dg := logDigest(rl.Ops)
 	fmt.Printf("history %s [%s] schedule %s: %d log entries, digest %s (recorded %s)\n", rs.History.Name, strings.Join(rs.History.Steps, " "), rs.Sched, len(rl.Ops), dg, rs.LogHash)
 	if dg != rs.LogHash {
